@@ -34,7 +34,7 @@ def check(case):
     acc = [[] for _ in range(K)]  # independent accumulator
     snap = None  # accumulator state at last update
     dirty = True
-    labels = [f"tm={int(tm)}", f"tv={int(tv)}"]
+    labels = [f"tm={int(tm)}", f"tv={int(tv)}"] + (["caller-reuses-buffers"] if case.get("reuse_buffers") else [])
     adds_per_design = [0] * K
     nt = False
     rejected = False
@@ -69,7 +69,10 @@ def check(case):
                 if order_ != sorted(order_):
                     labels.append("set-unsorted-iteration")
                     nt = True
-                model.add_sample(sidx, Y[: len(order_)])
+                Ypass = Y[: len(order_)].copy()
+                model.add_sample(sidx, Ypass)
+                if case.get("reuse_buffers"):  # the caller recycles its array: the model must hold what it was given
+                    Ypass[...] = -777.25
                 for i, y in zip(order_, Y[: len(order_)]):
                     acc[i].append(y.tolist())
                     adds_per_design[i] += 1
@@ -77,7 +80,10 @@ def check(case):
                 if len(set(idx)) < len(idx):
                     labels.append("repeated-index")
                     nt = True
-                model.add_sample(list(idx), Y)
+                Ypass = Y.copy()
+                model.add_sample(list(idx), Ypass)
+                if case.get("reuse_buffers"):
+                    Ypass[...] = -777.25
                 for i, y in zip(idx, Y):
                     acc[i].append(y.tolist())
                 for i in set(idx):
@@ -181,7 +187,7 @@ def st_case(draw):
                 ops.append(["predict", list(range(K)), False])
     return {"in_dim": in_dim, "m": m, "K": K, "noise_var": draw(st.sampled_from([1.0, 0.01, 2.5])),
             "track_means": draw(st.sampled_from([True, True, True, False])),
-            "track_vars": draw(st.sampled_from([True, True, False])), "ops": ops}
+            "track_vars": draw(st.sampled_from([True, True, False])), "ops": ops, "reuse_buffers": draw(st.booleans())}
 
 
 COMPONENTS = [
